@@ -777,6 +777,12 @@ def directed_cases(tier):
         out.append({"nch": 1, "kinds": ["rf"], "slots": 6, "limits": {"size": 3 * 2048}, "win": win, "negsize": pre, "cli": 0, "ops":
                     [{"o": "rescan", "kind": "existing"}] + [{"o": "create", "f": i, "size": 2048, "event": True} for i in (2, 3)] +
                     [{"o": "modify", "f": 2, "size": 4096, "event": True}, {"o": "modify", "f": 3, "size": 3000, "event": True}]})
+    # a tracked file renamed to another valid name of its channel while the channel is exactly at its limit: nothing is
+    # over any limit before, during or after the rename
+    for lim in ({"count": 3}, {"size": 3 * 2048}, {"count": 3, "size": 3 * 2048}):
+        out.append({"nch": 1, "kinds": ["rf"], "slots": 6, "limits": lim, "ops":
+                    [{"o": "create", "f": i, "size": 2048, "event": True} for i in (0, 1, 2)] + [{"o": "move_final", "f": 2, "t": 3},
+                     {"o": "move_final", "f": 1, "t": 2}, {"o": "create", "f": 4, "size": 2048, "event": True}]})
     # the real observer threads
     for sc in ("existing-then-live", "late-root", "root-replaced"):
         out.append({"live": sc, "verbose": sc == "late-root", "ops": [], "limits": {"count": 3}})
